@@ -83,6 +83,26 @@ def printed(prog, type_suffix, value, engine=None):
     if fn is None:
         return None
     eng = engine or terms.Engine(prog, inline=True, hooks=E.Hooks([fn.path.rsplit("::", 2)[0].lstrip("<")]))
+    # online partial evaluation for the concrete value: only the writes that are executed for it remain
+    self_name = fn.param_names()[0]
+    try:
+        sp = eng.specialise(fn, {self_name: value})
+    except Exception:
+        sp = None
+    if sp is not None:
+        nz = norm.Normalizer()
+        memo = {}
+        out = []
+        decided = True
+        for st in sp.all_sites():
+            if st.kind != "mcall" or st.name not in ("write_fmt", "write_str", "write_char", "pad"):
+                continue
+            if any(c[0] in ("if", "match") and not (len(c) > 4 and c[4] == "try") for c in st.pc):
+                decided = False          # a write that still depends on a condition
+                break
+            out += flatten_pieces(st.args[1], nz, memo)
+        if decided and out:
+            return merge(out)
     s = eng.summary(fn)
     if s is None:
         return None
